@@ -645,11 +645,14 @@ func (dec *Decoder) defaultDecode(t reflect.Type, p interface{}, tag byte) {
 		return
 	case TagClass:
 		dec.ReadStruct(t)
-		// a class definition in front of a value is a level of recursion as well
-		if dec.enter() {
-			dec.Decode(p)
-			dec.leave()
+		// any number of class definitions may stand in front of a value: they are read in
+		// a loop, not by one level of recursion each
+		next := dec.NextByte()
+		for next == TagClass && dec.Error == nil {
+			dec.ReadStruct(t)
+			next = dec.NextByte()
 		}
+		dec.Decode(p, next)
 		return
 	case TagError:
 		var s string
